@@ -21,9 +21,10 @@ META = {
                "the first two operations, thorough: all", "orders": "all permutations (<= 3 ops) / 6 (4 ops)",
                "scenarios": "no patches; master/slave on a contact face (either side); slave on a top face under two "
                "master blocks; two merged pairs meeting at one edge; slave name reused on a far side"},
-    "outside": ["more than 4 operations", "points closer than 0.5 but farther than TOL/2 (non-transitive tolerance chains)",
+    "outside": ["more than 4 operations", "points closer than 2.5 TOL but farther than TOL/2 (non-transitive tolerance chains)",
                 "a block next to a slave-side block that does not carry the slave patch itself"],
-    "assumptions": ["two corners are either the same lattice point (within TOL/4) or at least 0.99 apart"],
+    "assumptions": ["two corners are either the same lattice point (within TOL/4) or at least 0.99 apart - in the 'thin layer' "
+                    "jobs at least 2.5 TOL apart (symbolic layer thickness h in [2.5 TOL, 2])"],
     "must_reach": ["assembled"],
 }
 
@@ -61,8 +62,19 @@ def _corner_sides(k):
     return [s for s, (ax, end) in SIDE_AXIS.items() if bits[ax] == end]
 
 
-def run(sx, scenario, jitter_ops):
+def run(sx, scenario, jitter_ops, thin_axis=None):
     sc = SCENARIOS[scenario]
+    h = None
+    if thin_axis is not None:
+        # lattice coordinates 0, 1, 2, ... along this axis sit at 0, h, h + 1, ...: the first layer of cells is thin,
+        # down to 2.5 merge tolerances - distinct points, however close, are distinct vertices
+        h = sx.real("h", 2.5 * TOL, 2)
+
+    def coord(a, c):
+        if a != thin_axis or c == 0:
+            return sx.const(c)
+        return h + sx.const(c - 1)
+
     cells = sc["cells"]
     n = len(cells)
     # insertion order chosen by the solver
@@ -83,9 +95,9 @@ def run(sx, scenario, jitter_ops):
         for k, p in enumerate(base):
             if i in jitter_ops:
                 d = [sx.real(f"j{i}_{k}_{a}", -TOL / 8, TOL / 8) for a in range(3)]
-                pts.append([sx.const(p[a]) + d[a] for a in range(3)])
+                pts.append([coord(a, int(round(p[a]))) + d[a] for a in range(3)])
             else:
-                pts.append([sx.const(p[a]) for a in range(3)])
+                pts.append([coord(a, int(round(p[a]))) for a in range(3)])
             lattice[(i, k)] = tuple(int(round(x)) for x in p)
         pts = sx.arr(pts)
         ops[i] = cb.Loft(cb.Face(pts[:4]), cb.Face(pts[4:]))
@@ -140,4 +152,9 @@ def jobs(tier, seed):
             jit = [0]
         js.append({"name": name, "fn": "run", "params": {"scenario": name, "jitter_ops": jit},
                    "budget_s": 240 if tier == "quick" else 1500, "timeout_ms": 20000 if tier == "quick" else 60000})
+        thin = {"stack-z:slave-on-top-face": [2], "face-x:none": [0, 1], "edge-contact:none": [1], "row3:plain-patches": [0]}
+        for ax in (thin.get(name, []) if tier == "quick" else [0, 1, 2]):
+            js.append({"name": f"{name}|thin layer along {'xyz'[ax]}", "fn": "run",
+                       "params": {"scenario": name, "jitter_ops": jit[:1], "thin_axis": ax},
+                       "budget_s": 240 if tier == "quick" else 1500, "timeout_ms": 20000 if tier == "quick" else 60000})
     return js
